@@ -29,6 +29,7 @@ import (
 	"go.uber.org/atomic"
 
 	"github.com/lindb/lindb/index"
+	"github.com/lindb/lindb/internal/verifhook"
 	"github.com/lindb/lindb/metrics"
 	"github.com/lindb/lindb/models"
 	"github.com/lindb/lindb/pkg/option"
@@ -199,6 +200,7 @@ func (s *shard) GetOrCrateDataFamily(familyTime int64) (DataFamily, error) {
 	if err != nil {
 		return nil, err
 	}
+	verifhook.Yield("tsdb.shard.getOrCrateDataFamily.afterSegment")
 	// build rollup target segment if set auto rollup interval
 	for interval, rollupSegment := range s.rollupTargets {
 		_, err = rollupSegment.GetOrCreateSegment(interval.Calculator().GetSegment(familyTime))
